@@ -1,4 +1,4 @@
-CONSTANTS Classes = {}  HealthClasses = {}  Formats = {}  Fields = {}  Mutations = 0  ValueClasses = {}
+CONSTANTS Classes = {}  HealthClasses = {}  Formats = {}  Fields = {}  FleetClasses = {}  Mutations = 0  ValueClasses = {}
 CONSTANT KnownDeviations = ${KnownDeviations}
 SPECIFICATION TraceSpec
 CONSTRAINT HW
